@@ -14,8 +14,8 @@ META = {
     "id": "C34",
     "level": "model_checking",
     "technique": "TLA+ spec Interp (transcription of block selection / Lagrange coefficients / half-open areas over exact rationals + independent C34 predicates), TLC exhaustive over dyadic grids; exact probing of eko.interpolation judged by TLC trace spec InterpTrace on the code's own coefficients, values and re-interpolation matrices; log mode and random grids by TLC-planned laws with integer classes (exploration)",
-    "text": "TLC checks, for every grid of 2-6 points from {1/16..1} (degree 1-3; degree 4 on {1/8..1}), that the transcribed basis is one at its own node and zero at the others, sums to one and reproduces every monomial up to the degree at all nodes, area boundaries and midpoints, also through get_interpolation, and that exactly the invalid requests are refused. The real InterpolatorDispatcher is run on grids of the same domain in linear mode; its blocks, coefficients, evaluate_x values and get_interpolation matrices are recovered as exact rationals (uniqueness-guarded) and TLC evaluates the same predicates on them, then compares them with the transcription. Logarithmic mode and random grids (2-40 points, x_min to 1e-9, degree 1-6) are measured in every cell of the plan TLC enumerates (Partition, Kronecker, PolyReproduce, Reinterp, ReinterpTinyX) and reported as integer decades of the residual and of a conditioning bound derived from the code's coefficients; TLC requires class 1e-8 where the bound is below 1e-11 and checks plan completeness.",
-    "note": "Exact part: linear mode only (dyadic points are exact doubles; in log mode log(x) is not). Degree 4 only on the 8-value pool, degree 5-6 only through the laws: 32-bit TLC integers overflow on the monomial sums otherwise (an overflow is exit 2, never a verdict). Law cells whose conditioning bound exceeds 1e-11 are reported unresolved (high degree at small x: the monomial representation in log x loses digits). level: model_checking for the linear/dyadic part, exploration for the law part.",
+    "text": "TLC checks, for every grid of 2-6 points from {1/16..1} (degree 1-3; degree 4 on {1/8..1}), that the transcribed basis is one at its own node and zero at the others, sums to one and reproduces every monomial up to the degree at all nodes, area boundaries and midpoints, also through get_interpolation, and that exactly the invalid requests are refused. The real InterpolatorDispatcher is run on grids of the same domain in linear mode; its blocks, coefficients, evaluate_x values and get_interpolation matrices are recovered as exact rationals (uniqueness-guarded) and TLC evaluates the same predicates on them, then compares them with the transcription. Logarithmic mode and random grids (2-40 points, x_min to 1e-9, degree 1-6) are measured in every cell of the plan TLC enumerates (Partition, Kronecker, PolyReproduce, Reinterp, ReinterpTinyX) and reported as integer decades of the residual and of a conditioning bound derived from the code's coefficients; TLC requires the residual below max(1e-8, 100 x bound) in every cell whose bound is at most 1e-7 (3 decades to the smallest structural violation), reports the others unresolved, and checks plan completeness.",
+    "note": "Exact part: linear mode only (dyadic points are exact doubles; in log mode log(x) is not). Degree 4 only on the 8-value pool, degree 5-6 only through the laws: 32-bit TLC integers overflow on the monomial sums otherwise (an overflow is exit 2, never a verdict). Law cells whose conditioning bound exceeds 1e-7 are reported unresolved (high degree at small x: the monomial representation in log x loses digits). level: model_checking for the linear/dyadic part, exploration for the law part.",
     "design_ref": "4.1, 4.10, 5 C34",
     "rule": "exact instance = (dyadic grid, degree); non-trivial = accepted grid with >= 3 points; law instance = (cell, sample); distinct by grid tuple / cell tuple",
 }
@@ -44,14 +44,14 @@ def exact_jobs(chk):
     jobs = []
     # pool {1/16..1}, degree 1-3, 2-6 points
     dom16 = [(n, d) for n in range(2, 7) for d in (1, 2, 3) if n > d]
-    n16 = 1500 if chk.thorough() else 220
+    n16 = 1500 if chk.thorough() else 80
     for _ in range(n16):
         n, d = rng.choice(dom16)
         ks = sorted(rng.sample(range(1, 17), n))
         jobs.append(([(k, 16) for k in ks], d, True))
     # pool {1/8..1}, degree 1-4
     dom8 = [(n, d) for n in range(2, 7) for d in (1, 2, 3, 4) if n > d]
-    n8 = 600 if chk.thorough() else 120
+    n8 = 600 if chk.thorough() else 50
     for _ in range(n8):
         n, d = rng.choice(dom8)
         ks = sorted(rng.sample(range(1, 9), n))
@@ -70,7 +70,7 @@ def exact_jobs(chk):
             for d in (0, 1, 2, 3, 4):
                 if valid_pts and n >= 2 and 1 <= d < n:
                     continue
-                if n <= 2 or rng.random() < (0.5 if chk.thorough() else 0.08):
+                if n <= 2 or rng.random() < (0.5 if chk.thorough() else 0.04):
                     jobs.append(([(k, 4) for k in ks], d, False))
     jobs.append(([(1, 2), (1, 1)], -1, False))
     return jobs
@@ -94,7 +94,7 @@ def run(chk):
         eres_async = pool.map_async(_probe_job, ejobs, chunksize=8)
         # ---- B1: design, concurrently -------------------------------------------------------
         b1 = [
-            {"module": "InterpMC", "cfg": "InterpMC_q8.cfg", "label": "B1 pool {1/8..1}, 2-6 points, degree 1-4", "workers": 6},
+            {"module": "InterpMC", "cfg": "InterpMC_q8.cfg" if chk.thorough() else "InterpMC_q8q.cfg", "label": "B1 pool {1/8..1}, 2-6 points, degree 1-4" if chk.thorough() else "B1 pool {1/8..1}, 2-5 points, degree 1-4", "workers": 6},
             {"module": "InterpMC", "cfg": "InterpMC_full.cfg" if chk.thorough() else "InterpMC.cfg",
              "label": "B1 pool {1/16..1}, 2-6 points, degree 1-3" if chk.thorough() else "B1 pool {1/16..1}, 2-3 points, degree 1-2", "workers": 8 if chk.thorough() else 4},
             {"module": "InterpMC", "cfg": "InterpMC_raw.cfg", "label": "B1 rejection: raw lists of 1-4 points x degree 0-3", "workers": 2},
@@ -151,7 +151,8 @@ def run(chk):
     worst = {}
     for r, rp in zip(lrecs, replays):
         key = r["cell"]["law"]
-        worst[key] = max(worst.get(key, -99), r["resid_e"] if r["bound_e"] <= -11 else -99)
+        if r["bound_e"] <= -7:
+            worst[key] = max(worst.get(key, -99), r["resid_e"] - r["bound_e"])
     for t in rl.printed("BAD"):
         k, verdict = t[1] - 1, t[2]
         if verdict == "UNRESOLVED":
@@ -176,9 +177,9 @@ def run(chk):
     chk.note("law_cells_planned", len(cells))
     chk.note("law_measurements", len(lrecs))
     chk.note("law_unresolved", n_unres)
-    chk.note("law_worst_resolved_residual_decade", worst)
+    chk.note("law_worst_resolved_residual_minus_bound_decades", worst)
     unres_cells = sorted({str((r["cell"]["mode"], r["cell"]["deg"], r["cell"]["xmin"], r["cell"]["size"]))
-                          for r in lrecs if r["bound_e"] > -11})
+                          for r in lrecs if r["bound_e"] > -7})
     chk.note("law_unresolved_cells", unres_cells[:60])
     chk.sample({"law_record": lrecs[0]})
 
@@ -193,7 +194,7 @@ def run(chk):
     c4 = copy.deepcopy(good)
     c4["err"] = "ValueError"                                                     # valid grid refused
     c5 = copy.deepcopy(next(x for x in lrecs if x["bound_e"] <= -12))
-    c5["resid_e"] = -5
+    c5["resid_e"] = -4
     c6 = copy.deepcopy(lrecs[0])
     c6["cell"] = dict(c6["cell"], deg=9)
     rb = chk.tlc("InterpTrace", "InterpTrace.cfg", trace=[c1, c2, c3, c4, c5, c6, lrecs[0], {"kind": "end"}],
